@@ -61,7 +61,7 @@ class Obligation:
     def record(self):
         return {"engine": "mirsmt", "name": self.name, "obligation": self.what, "functions": self.functions, "result": self.result,
                 "reason": self.reason, "paths": self.paths, "solver_queries": self.queries, "solver_s": round(self.solver_s, 3),
-                "bound": f"at most {N} attributes; attribute types and values range over uninterpreted sorts",
+                "bound": getattr(self, "bound_text", f"at most {N} attributes; attribute types and values range over uninterpreted sorts"),
                 "reachability_witness": self.reach}
 
 
@@ -1190,3 +1190,147 @@ def _unsupported(msg):
 
 
 TBS = [ob_ext_presence, ob_auto_serial]
+
+
+# ------------------------------------------------------------------------------------------ translator validation
+
+def concrete_histories(fns, seed, n_hist=24, length=7):
+    """Run random concrete edit histories through the *encoding* (the MIR of new/push/remove/get/iter executed by the engine on
+    concrete z3 values). Returns [(history, enumeration after each step as [(type id, value id)], results)] for comparison with
+    a native execution of the same histories."""
+    import random
+    rnd = random.Random(seed)
+    f_new = Models(fns).resolve(None, "DistinguishedName::new", [])
+    f_push = find(fns, r"::push$", r"^&mut DistinguishedName$")
+    f_remove = find(fns, r"::remove$", r"^&mut DistinguishedName$")
+    f_get = find(fns, r"::get$", r"^&DistinguishedName$")
+    f_iter = find(fns, r"::iter$", r"^&DistinguishedName$")
+    f_next = find(fns, r"::next$", r"^&mut DistinguishedNameIterator")
+    payload = [z3.Const(f"payload_{i}", E.DnPayload) for i in range(8)]
+    out = []
+    for h in range(n_hist):
+        eng, models = setup(fns)
+        st = State()
+        st.pc.append(z3.Distinct(*payload))
+        res = list(eng.run_fn(f_new, [], st))
+        assert len(res) == 1
+        st, dn = res[0]
+        cell = Cell(dn)
+        st.roots["dn"] = cell
+        hist, snaps = [], []
+        for step in range(length):
+            op = rnd.choice(["push", "push", "push", "remove", "get"])
+            t = rnd.randrange(4)
+            tv = z3.BitVecVal(t, 3)
+            if op == "push":
+                v = rnd.randrange(8)
+                r = list(eng.run_fn(f_push, [Ref(st.roots["dn"]), Z(tv), Z(DnValue.Utf8String(payload[v]))], st))
+                result = None
+                hist.append(("push", t, v))
+            elif op == "remove":
+                r = list(eng.run_fn(f_remove, [Ref(st.roots["dn"]), Z(tv)], st))
+                hist.append(("remove", t, None))
+            else:
+                r = list(eng.run_fn(f_get, [Ref(st.roots["dn"]), Ref(Cell(Z(tv)))], st))
+                hist.append(("get", t, None))
+            if len(r) != 1:
+                raise Unsupported(f"concrete history forked into {len(r)} paths at {hist[-1]}")
+            st, ret = r[0]
+            sol = z3.Solver()
+            sol.add(*st.pc)
+            assert sol.check() == z3.sat
+            mdl = sol.model()
+
+            def val_id(term):
+                s = z3.simplify(term)
+                for i, p in enumerate(payload):
+                    if z3.is_true(mdl.eval(DnValue.p_Utf8String(s) == p, model_completion=True)):
+                        return i
+                return -1
+
+            if op == "remove":
+                result = z3.is_true(mdl.eval(ret.e, model_completion=True))
+            elif op == "get":
+                result = val_id(deref(ret.payload).e) if z3.is_true(mdl.eval(ret.cond, model_completion=True)) else None
+            # enumeration through iter()/next() of the encoding
+            enum = []
+            it_res = list(eng.run_fn(f_iter, [Ref(st.roots["dn"])], st))
+            st, it = it_res[0]
+            st.roots["it"] = Cell(it)
+            for _ in range(N + 1):
+                nxt = [(s2, r2) for (s2, r2) in eng.run_fn(f_next, [Ref(st.roots["it"])], st)]
+                live = []
+                for (s2, r2) in nxt:
+                    chk = z3.Solver()
+                    chk.add(*s2.pc)
+                    if chk.check() == z3.sat:
+                        live.append((s2, r2))
+                if len(live) != 1:
+                    raise Unsupported(f"concrete iteration forked into {len(live)} paths")
+                st, r2 = live[0]
+                chk = z3.Solver()
+                chk.add(*st.pc)
+                chk.check()
+                m2 = chk.model()
+                if not z3.is_true(m2.eval(r2.cond, model_completion=True)):
+                    break
+                ty = m2.eval(deref(r2.payload.fields[0].v).e, model_completion=True).as_long()
+                enum.append((ty, val_id(deref(r2.payload.fields[1].v).e)))
+            snaps.append((result, enum))
+        out.append((hist, snaps))
+    return out
+
+
+def native_histories(histories, repo):
+    """Execute the same histories against the real code and return the same observations."""
+    import os, shutil, subprocess, tempfile, json
+    from pathlib import Path
+    body = ""
+    for (hist, _snaps) in histories:
+        body += "    { let mut dn = DistinguishedName::new(); let mut obs: Vec<String> = vec![];\n"
+        for (op, t, v) in hist:
+            if op == "push":
+                body += f"      dn.push(ty({t}), val({v})); let r = String::from(\"null\");\n"
+            elif op == "remove":
+                body += f"      let r = format!(\"{{}}\", dn.remove(ty({t})));\n"
+            else:
+                body += f"      let r = match dn.get(&ty({t})) {{ Some(DnValue::Utf8String(s)) => s[1..].to_string(), _ => String::from(\"null\") }};\n"
+            body += ("      obs.push(format!(\"[{},[{}]]\", r, dn.iter().map(|(t, v)| format!(\"[{},{}]\", tyid(t), match v { DnValue::Utf8String(s) => s[1..].to_string(), _ => String::from(\"-1\") })).collect::<Vec<_>>().join(\",\")));\n")
+        body += "      println!(\"[{}]\", obs.join(\",\")); }\n"
+    src = ("use rcgen::{DistinguishedName, DnType, DnValue};\nfn ty(i: u64) -> DnType { DnType::CustomDnType(vec![2, 5, 4, 100 + i]) }\n"
+           "fn tyid(t: &DnType) -> u64 { match t { DnType::CustomDnType(v) => v[3] - 100, _ => 99 } }\nfn val(i: u64) -> DnValue { DnValue::Utf8String(format!(\"v{}\", i)) }\n"
+           "fn main() {\n" + body + "}\n")
+    scratch = Path(tempfile.mkdtemp(prefix="rcgen-mvalid-", dir=os.environ.get("VERIF_SCRATCH") or tempfile.gettempdir()))
+    try:
+        (scratch / "src").mkdir()
+        (scratch / "Cargo.toml").write_text(f'[package]\nname = "mvalid"\nversion = "0.0.0"\nedition = "2021"\n[workspace]\n[dependencies]\nrcgen = {{ path = "{repo}/rcgen", default-features = false }}\n')
+        shutil.copy(Path(repo) / "Cargo.lock", scratch / "Cargo.lock")
+        (scratch / "src" / "main.rs").write_text(src)
+        env = dict(os.environ)
+        env["CARGO_NET_OFFLINE"] = "true"
+        env.pop("RUSTFLAGS", None)
+        p = subprocess.run(["cargo", "run", "--offline", "-q"], cwd=scratch, env=env, capture_output=True, text=True, timeout=900)
+        if p.returncode != 0:
+            raise Unsupported("native history program failed: " + p.stderr[-500:])
+        return [json.loads(line) for line in p.stdout.strip().split("\n")]
+    finally:
+        shutil.rmtree(scratch, ignore_errors=True)
+
+
+def validate_translator(fns, repo, seed, n_hist=24):
+    """(number of histories compared, list of disagreements)"""
+    hs = concrete_histories(fns, seed, n_hist=n_hist)
+    native = native_histories(hs, repo)
+    bad = []
+
+    def norm(r):
+        if r is None or r == "null":
+            return "null"
+        return str(r).lower()
+
+    for (hist, snaps), nat in zip(hs, native):
+        encn = [[norm(r), [[t, v] for (t, v) in en]] for (r, en) in snaps]
+        natn = [[norm(x[0]), [list(e) for e in x[1]]] for x in nat]
+        if encn != natn:
+            bad.append({"history": hist, "encoding": encn, "native": natn})
+    return len(hs), bad
